@@ -42,16 +42,19 @@ class LogPaxosWorld(NetWorld):
     max_hb: heartbeat timer firings
     bounded: timers fire only when no message is in flight (delays bounded below the heartbeat period)
     live: evaluate the liveness clause at quiescence (needs bounded, single starter)
+    establish: node indices that start() BEFORE the search begins, every message delivered in FIFO order until
+               quiet (non-initial start state "x is the established leader"); counts towards max_starts
     """
 
     def __init__(self, kind="multi", n=3, q1=None, q2=None, presubmit=((0, "c1"),), starters=(0,),
                  max_starts=1, starts_each=1, late_cmds=(), late_to=None, forward=False, max_hb=0,
-                 bounded=False, live=False, cut=(), max_moves=None):
+                 bounded=False, live=False, cut=(), max_moves=None, establish=()):
         super().__init__()
         self.p = dict(kind=kind, n=n, q1=q1, q2=q2, presubmit=tuple(tuple(x) for x in presubmit),
                       starters=tuple(starters), max_starts=max_starts, starts_each=starts_each,
                       late_cmds=tuple(late_cmds), late_to=late_to, forward=forward, max_hb=max_hb,
-                      bounded=bounded, live=live, cut=tuple(tuple(c) for c in cut), max_moves=max_moves)
+                      bounded=bounded, live=live, cut=tuple(tuple(c) for c in cut), max_moves=max_moves,
+                      establish=tuple(establish))
         self.proto = "MultiPaxos" if kind == "multi" else "FlexiblePaxos"
         assert not (live and (cut or not bounded or max_starts != 1)), "liveness premise: fault-free, bounded, one leader"
         nodes = []
@@ -78,10 +81,34 @@ class LogPaxosWorld(NetWorld):
         self.moves = 0
         self.hb_since = 0
         self.conf = False
+        # take-over discrimination (all observable on the wire / through public properties):
+        self.pre_slots = ()  # slots that held an accepted entry at some node when a later leader attempt began,
+        #                      or that a Promise carried in its log_entries: the new leader was told about them
+        self.promised_foreign = {}  # node -> highest ballot of ANOTHER node it has sent a Promise for
+        self.deposed_slots = ()  # slots for which a node sent an Accept at or below a foreign ballot it had promised
+        self.slot_ballots = {}  # slot -> ballot numbers / nodes seen in Accepts for it
+        self.kept_leading = ()  # nodes that still reported is_leader right after sending a Promise for a foreign ballot
+        self.kept_slots = ()  # deposed_slots whose Accept came from such a node
+        self._just_promised = None
         for i, cmd in self.p["presubmit"]:
             nd = nodes[i]
             self.submitted.append(cmd)
             self.futures.append((nd.name, cmd, nd.submit(cmd)))
+        for i in self.p["establish"]:
+            nd = nodes[i]
+            self.starts[nd.name] = self.starts.get(nd.name, 0) + 1
+            from props.c12_worlds import fixed_random
+            with fixed_random():
+                self.absorb(nd.start())
+                guard = 0
+                while self.msgs and guard < 200:
+                    guard += 1
+                    etype, md, _k = self.msgs.pop(0)
+                    from mc.harness import Event
+                    dst = self.by_name[md["destination"]]
+                    self.absorb(dst.handle_event(Event(time=self.clock.now, event_type=etype, target=dst, daemon=True,
+                                                       context={"metadata": md})))
+            self.timers = [t for t in self.timers if not t[1].cancelled]
         self.observe()
 
     # -- moves ----------------------------------------------------------
@@ -114,11 +141,21 @@ class LogPaxosWorld(NetWorld):
         self.moves += 1
         if lab[0] == "timer":
             self.hb_since += 1
+        self._just_promised = None
         super().apply(lab)
+        jp = self._just_promised
+        if jp is not None and self.by_name[jp].is_leader and jp not in self.kept_leading:
+            self.kept_leading = tuple(sorted(set(self.kept_leading) | {jp}))
+        self._just_promised = None
 
     def apply_client(self, lab):
         if lab[0] == "start":
             nd = self.by_name[lab[1]]
+            if sum(self.starts.values()) >= 1:
+                held = set(self.pre_slots)
+                for x in self.nodes:
+                    held.update(range(1, x.log.last_index + 1))
+                self.pre_slots = tuple(sorted(held))
             self.starts[nd.name] = self.starts.get(nd.name, 0) + 1
             self.absorb(nd.start())
         elif lab[0] == "submit":
@@ -182,7 +219,7 @@ class LogPaxosWorld(NetWorld):
             for (nm, s), cmd in list(self.first.items()):
                 if nm == nd.name and s not in rep and ("gone", (nm, s)) not in self.flags:
                     self.flags.add(("gone", (nm, s)))
-                    self.viol.append((f"{self.proto}/decision-retracted/{self.conflict_shape()}",
+                    self.viol.append((f"{self.proto}/decision-retracted/{self.conflict_shape(s)}",
                                       f"node {nm} reported slot {s} decided ({cmd!r}) and later no longer reports it "
                                       f"(commit_index={nd.log.commit_index})"))
             # the state machine is handed decided commands: position i is a report for slot i+1
@@ -206,11 +243,54 @@ class LogPaxosWorld(NetWorld):
                           f"(ballot {self.ballot_of(nd)})"))
 
     def conflict_shape(self, s=None, nd=None):
-        if sum(self.starts.values()) > 1:
-            return "takeover"  # a second leader attempt happened
+        if sum(self.starts.values()) > 1:  # a second leader attempt happened
+            if s is None:
+                s = min(self.slot_first, default=None)
+            if s in self.kept_slots:
+                # a LEADER promised another node's ballot, kept reporting is_leader, and went on issuing Accepts
+                return "takeover-leader-kept-leading-after-promise"
+            if s in self.deposed_slots:
+                # a candidate promised another node's ballot, later its own stale Phase-1 quorum completed and it
+                # issued Accepts at or below the ballot it had promised
+                return "takeover-stale-phase1-quorum-after-promise"
+            if s in self.pre_slots:
+                # the slot already held an accepted entry when the later leader began / a Promise carried it:
+                # the new leader was told and ignored it (known: recovery ignores promised logs)
+                return "takeover"
+            nums = {b[0] for b in self.slot_ballots.get(s, ())}
+            nodes = {b[1] for b in self.slot_ballots.get(s, ())}
+            if len(nodes) > 1 and len(nums) == 1:
+                # two leaders used the same ballot NUMBER for the slot (log terms cannot tell them apart)
+                return "takeover-fresh-slot-equal-ballot-numbers"
+            return "takeover-fresh-slot"
         if "ooo-accept" in self.flags:
             return "single-leader-out-of-order-accept"  # an Accept overtook the Accept of an earlier slot
         return "single-leader-in-order"
+
+    def on_send(self, etype, md):
+        if etype.endswith("PaxosPromise"):
+            src = md["source"]
+            b = (md["ballot_number"], md["ballot_node"])
+            if md["ballot_node"] != src:
+                self._just_promised = src
+                if b > self.promised_foreign.get(src, (-1, "")):
+                    self.promised_foreign[src] = b
+            idx = {e["index"] for e in md.get("log_entries", ())}
+            if idx - set(self.pre_slots):
+                self.pre_slots = tuple(sorted(set(self.pre_slots) | idx))
+        elif etype.endswith("PaxosAccept"):
+            src = md["source"]
+            b = (md["ballot_number"], md["ballot_node"])
+            slot = md["slot"]
+            sb = set(self.slot_ballots.get(slot, ()))
+            if b not in sb:
+                self.slot_ballots[slot] = tuple(sorted(sb | {b}))
+            pf = self.promised_foreign.get(src)
+            if pf is not None and b <= pf:
+                if slot not in self.deposed_slots:
+                    self.deposed_slots = tuple(sorted(set(self.deposed_slots) | {slot}))
+                if src in self.kept_leading and slot not in self.kept_slots:
+                    self.kept_slots = tuple(sorted(set(self.kept_slots) | {slot}))
 
     def conflict(self):
         return self.conf or sum(self.starts.values()) > 1 or "ooo-accept" in self.flags
@@ -239,7 +319,7 @@ class LogPaxosWorld(NetWorld):
                 dec = self.slot_first.get(slot)
                 if not ok or dec is None or dec[0] != cmd:
                     self.flags.add(("fut", idx))
-                    out.append((f"{self.proto}/future-value/{self.conflict_shape()}",
+                    out.append((f"{self.proto}/future-value/{self.conflict_shape(slot if slot in self.slot_first else None)}",
                                 f"submit({cmd!r}) future at {nm} resolved with {v!r}; slot {slot} decided value is "
                                 f"{dec[0] if dec else None!r}"))
         if self.p["live"]:
@@ -299,7 +379,9 @@ class LogPaxosWorld(NetWorld):
         return (tuple(self.submitted), tuple(sorted(self.starts.items())),
                 tuple(sorted(self.first.items(), key=repr)), tuple(sorted(self.slot_first.items(), key=repr)),
                 tuple((f.is_resolved, repr(f.value) if f.is_resolved else None) for _n, _c, f in self.futures),
-                tuple(sorted(map(repr, self.flags))))
+                tuple(sorted(map(repr, self.flags))), self.pre_slots, self.deposed_slots, self.kept_leading,
+                self.kept_slots,
+                tuple(sorted(self.promised_foreign.items())), tuple(sorted(self.slot_ballots.items())))
 
     def describe(self):
         parts = []
